@@ -213,7 +213,8 @@ def gen_call(rng, w):
         # expanding an already expanded model matches tens of thousands of names against the whole catalogue each
         return ("expand", rng.choice([i for i in range(len(w.models)) if i not in w.expanded] or [0]))
     if r < 0.78:
-        return ("queries", mi)
+        # (as for expand: the queries re-match every name of an expanded NotAction against the whole catalogue)
+        return ("queries", rng.choice([i for i in range(len(w.models)) if i not in w.expanded] or [0]))
     if r < 0.9 and w.conds:
         return ("cond", rng.randrange(len(w.conds)), rng.randrange(len(w.contexts)))
     return ("filter", mi, rng.choice([("AWS::IAM::Role",), ("AWS::S3::Bucket", "Custom::Thing"), ()]))
